@@ -25,9 +25,16 @@ RULES["C08"] = (
     "stl_ascii/3mf/dict/dict64; dae: declared relative 2e-6); counts, colours where the format carries them, scene "
     "placement of every instance; purity: hash / bytes of the source identical before and after export and two exports "
     "give identical bytes. Non-trivial: >=2 faces with all-distinct vertices; distinct by (format, options, case)."
-    " Paths (dxf/svg/dict) and binvox round trips are decided in C14 and C13."
+    " Voxel grids: cubic grids n=2..16 (binvox stores one scale), random / slab / explicit run-length fills with runs "
+    "around 255 and its multiples, dense / RLE / BRLE backing, both axis orders, stream and file: loaded.matrix == "
+    "source cells exactly, same shape, transform and cell centres to a few ulp. Paths: lines (open / closed polylines), "
+    "arcs and circles through dxf / svg / dict: same entity kinds in the same order, line points within the precision "
+    "the writer prints (dict exact, svg 1e-12, dxf 1e-9 relative to the drawing size), arc centre / radius / end "
+    "points / side. (Region-level path invariants are C14's, codec-level run-length laws are C13's.)"
 )
 ASSUMPTIONS["C08"] = [
+    "svg stores a circle as two semicircular arcs in endpoint parametrisation; the centre recovered from that form is conditioned like sqrt(eps*R*size), which is the precision compared for svg circles (lines, open arcs and the other formats are compared at print precision)",
+    "binvox: only cubic grids with n >= 2 and uniform positive voxel scale are exportable (export_binvox raises ValueError otherwise; a 1x1x1 grid has no defined scale in the format)",
     "DAE goes through the third-party pycollada writer: coordinates compared at a declared relative 2e-6 (order, counts and placement still exact)",
     "formats that only store vertex colours (obj, glb/gltf) are compared on vertex-coloured sources; face colours are compared for ply and dict",
     "3mf archives embed fresh UUIDs and pycollada writes a creation time, so 'two exports give identical bytes' is not asserted for 3mf / dae",
@@ -386,6 +393,189 @@ MESH_FORMATS = {
 }
 
 
+# ------------------------------------------------------------------ voxel grids (binvox) and paths (dxf / svg / dict)
+
+
+def build_voxel(spec):
+    """cubic grids (the binvox header has one scale for all axes, so export_binvox refuses anything else)"""
+    from trimesh.voxel import encoding as E
+
+    n = spec["n"]
+    rs = np.random.RandomState(spec["seed"])
+    fill = spec["fill"]
+    if fill[0] == "random":
+        dense = rs.rand(n, n, n) < fill[1]
+    elif fill[0] == "slab":
+        dense = np.zeros((n, n, n), dtype=bool)
+        dense[fill[1] : fill[1] + fill[2]] = True
+    else:
+        # explicit run lengths over the flattened grid, alternating empty / filled
+        flat = np.zeros(n**3, dtype=bool)
+        i, val = 0, bool(fill[2])
+        for ln in fill[1]:
+            flat[i : i + ln] = val
+            i += ln
+            val = not val
+            if i >= len(flat):
+                break
+        dense = flat.reshape((n, n, n))
+    if spec["backing"] == "dense":
+        enc = E.DenseEncoding(dense)
+    elif spec["backing"] == "rle":
+        enc = E.RunLengthEncoding.from_dense(dense.reshape(-1), dtype=bool).reshape(dense.shape)
+    else:
+        enc = E.BinaryRunLengthEncoding.from_dense(dense.reshape(-1)).reshape(dense.shape)
+    T = np.eye(4)
+    T[:3, :3] *= spec["scale"]
+    T[:3, 3] = spec["offset"]
+    return trimesh.voxel.VoxelGrid(enc, transform=T), dense, T
+
+
+@body("C08.voxel")
+def b_voxel(case, ctx):
+    vg, dense, T = build_voxel(case["spec"])
+    ao = case["axis_order"]
+    flat = dense.reshape(-1) if ao == "xyz" else dense.transpose((0, 2, 1)).reshape(-1)
+    edges = np.flatnonzero(np.diff(flat.astype(np.int8))) + 1
+    runs = np.diff(np.concatenate(([0], edges, [len(flat)])))
+    longest = int(runs.max()) if len(runs) else 0
+    ctx.note(nontrivial=bool(dense.any() and not dense.all()), cls=[f"voxel:{case['spec']['backing']}:{ao}", "voxel:run>=510" if longest >= 510 else "voxel:run>=255" if longest >= 255 else "voxel:short_runs"]
+             + (["voxel:run_is_multiple_of_255"] if len(runs) and bool(((runs % 255) == 0).any()) else []))
+    before = (np.array(vg.matrix).tobytes(), np.array(vg.transform).tobytes())
+    kw = {} if ao == "xzy" and case.get("default_kw") else {"axis_order": ao}
+    data = vg.export(file_type="binvox", **kw)
+    check(isinstance(data, bytes) and data.startswith(b"#binvox"), "C08.voxel|export_type", str(type(data)))
+    check((np.array(vg.matrix).tobytes(), np.array(vg.transform).tobytes()) == before, "C08.voxel|export_modified_source", "")
+    check(vg.export(file_type="binvox", **kw) == data, "C08.voxel|export_not_deterministic", "")
+    if case["via_path"]:
+        path = os.path.join(os.getcwd(), f"vf_c08_{os.getpid()}.binvox")
+        with open(path, "wb") as f:
+            f.write(data)
+        try:
+            loaded = trimesh.load(path, **kw)
+        finally:
+            os.remove(path)
+    else:
+        loaded = trimesh.load(wrap_as_stream(data), file_type="binvox", **kw)
+    check(isinstance(loaded, trimesh.voxel.VoxelGrid), "C08.voxel|loaded_type", type(loaded).__name__)
+    check(tuple(loaded.shape) == dense.shape, "C08.voxel|shape", f"{loaded.shape} vs {dense.shape}")
+    got = np.asarray(loaded.matrix)
+    if not np.array_equal(got, dense):
+        bad = np.argwhere(got != dense)
+        raise Violation(f"C08.voxel|cells|axis_order={ao}", f"{len(bad)} of {dense.size} cells differ, first {bad[0].tolist()}: loaded {bool(got[tuple(bad[0])])}; longest run {longest}")
+    check(int(loaded.filled_count) == int(dense.sum()), "C08.voxel|filled_count", f"{loaded.filled_count} vs {int(dense.sum())}")
+    tolT = 16 * np.finfo(np.float64).eps * max(1.0, np.abs(T).max()) * dense.shape[0]
+    check(np.abs(np.asarray(loaded.transform) - T).max() <= tolT, "C08.voxel|transform", f"{np.asarray(loaded.transform).tolist()} vs {T.tolist()}")
+    # the filled cells sit where they sat (as a set: the point order follows the storage order)
+    if dense.any():
+        a = np.asarray(loaded.points)
+        b = np.asarray(vg.points)
+        a = a[np.lexsort(a.T[::-1])]
+        b = b[np.lexsort(b.T[::-1])]
+        check(a.shape == b.shape and np.abs(a - b).max() <= tolT * 4 + 1e-12 * np.abs(b).max(), "C08.voxel|points", "centres of the filled cells moved")
+
+
+def build_path(spec):
+    from trimesh.path.entities import Arc, Line
+
+    rs = np.random.RandomState(spec["seed"])
+    verts, ents, kinds = [], [], []
+    for k, e in enumerate(spec["entities"]):
+        c = np.array([k * 7.0, (k % 3) * 5.0]) * spec["scale"] + np.array(spec["offset"])
+        if e[0] == "line":
+            n = e[1]
+            ang = np.sort(rs.uniform(0, 2 * np.pi, n))
+            pts = c + np.column_stack((np.cos(ang), np.sin(ang))) * rs.uniform(0.5, 2.5, (n, 1)) * spec["scale"]
+            i0 = len(verts)
+            verts += pts.tolist()
+            idx = list(range(i0, i0 + n)) + ([i0] if e[2] and n >= 3 else [])
+            ents.append(Line(idx))
+            kinds.append("line_closed" if e[2] and n >= 3 else "line_open")
+        else:
+            r = rs.uniform(0.5, 2.5) * spec["scale"]
+            if e[1] == "circle":
+                t = np.array([0.0, 2.0, 4.0]) + rs.uniform(0, 1)
+            else:
+                t0 = rs.uniform(0, 2 * np.pi)
+                span = rs.uniform(0.3, 5.5)
+                t = t0 + np.array([0.0, 0.5, 1.0]) * span * (1 if e[2] else -1)
+            i0 = len(verts)
+            verts += (c + np.column_stack((np.cos(t), np.sin(t))) * r).tolist()
+            ents.append(Arc([i0, i0 + 1, i0 + 2], closed=e[1] == "circle"))
+            kinds.append("circle" if e[1] == "circle" else "arc")
+    return trimesh.path.Path2D(entities=ents, vertices=np.array(verts, dtype=np.float64), process=False), kinds
+
+
+def describe_path(q):
+    """per entity: ('line', points) | ('arc', centre, radius, end points, mid direction) | ('circle', centre, radius)"""
+    from trimesh.path.entities import Arc, Line
+
+    out = []
+    V = np.asarray(q.vertices)
+    for e in q.entities:
+        if isinstance(e, Line):
+            out.append(("line", V[e.points]))
+        elif isinstance(e, Arc):
+            cen = e.center(V)
+            pts = V[e.points]
+            if e.closed:
+                out.append(("circle", np.array(cen.center), float(cen.radius)))
+            else:
+                mid = pts[1] - np.array(cen.center)
+                out.append(("arc", np.array(cen.center), float(cen.radius), pts[[0, 2]], mid / np.linalg.norm(mid)))
+        else:
+            out.append((type(e).__name__,))
+    return out
+
+
+@body("C08.path")
+def b_path(case, ctx):
+    from trimesh.path.exchange.misc import dict_to_path
+
+    p, kinds = build_path(case["spec"])
+    fmt = case["fmt"]
+    ctx.note(nontrivial=len(kinds) >= 2, cls=[f"path:{fmt}"] + sorted({f"path:{k}" for k in kinds}))
+    src = describe_path(p)
+    before = (np.array(p.vertices).tobytes(), [np.array(e.points).tobytes() for e in p.entities])
+    data = p.export(file_type=fmt)
+    check((np.array(p.vertices).tobytes(), [np.array(e.points).tobytes() for e in p.entities]) == before, f"C08.path|{fmt}|export_modified_source", "")
+    if fmt == "dict":
+        q = trimesh.path.Path2D(**dict_to_path(data))
+    else:
+        payload = data.encode("utf-8") if isinstance(data, str) else data
+        if case["via_path"]:
+            path = os.path.join(os.getcwd(), f"vf_c08_{os.getpid()}.{fmt}")
+            with open(path, "wb") as f:
+                f.write(payload)
+            try:
+                q = trimesh.load_path(path)
+            finally:
+                os.remove(path)
+        else:
+            q = trimesh.load_path(wrap_as_stream(payload), file_type=fmt)
+    got = describe_path(q)
+    check([g[0] for g in got] == [s_[0] for s_ in src], f"C08.path|{fmt}|entities", f"loaded {[g[0] for g in got]} vs exported {[s_[0] for s_ in src]}")
+    size = max(1.0, float(np.abs(np.asarray(p.vertices)).max()))
+    tol = {"dict": 0.0, "svg": 1e-12 * size, "dxf": 1e-9 * size}[fmt]
+    for k, (a, b) in enumerate(zip(src, got)):
+        if a[0] == "line":
+            check(a[1].shape == b[1].shape, f"C08.path|{fmt}|line_point_count", f"entity {k}: {b[1].shape} vs {a[1].shape}")
+            fwd = np.abs(a[1] - b[1]).max()
+            check(fwd <= tol, f"C08.path|{fmt}|line_points", f"entity {k}: points differ by {fwd} > {tol}")
+        elif a[0] in ("arc", "circle"):
+            atol = max(tol, 1e-9 * size) * 10
+            if fmt == "svg" and a[0] == "circle":
+                # export_svg writes a circle as two exact semicircles in endpoint form (end points 2R apart): the centre
+                # is recovered from sqrt(R^2 - (d/2)^2) with R^2 - (d/2)^2 ~ eps*R*size, i.e. to sqrt(eps*R*size) only
+                atol = max(atol, 32 * np.sqrt(np.finfo(np.float64).eps * a[2] * size))
+            check(np.abs(a[1] - b[1]).max() <= atol and abs(a[2] - b[2]) <= atol, f"C08.path|{fmt}|{a[0]}_centre_radius", f"entity {k}: centre {b[1].tolist()} r {b[2]} vs {a[1].tolist()} r {a[2]}")
+            if a[0] == "arc":
+                same = np.abs(a[3] - b[3]).max() <= atol
+                swapped = np.abs(a[3] - b[3][::-1]).max() <= atol
+                check(same or swapped, f"C08.path|{fmt}|arc_end_points", f"entity {k}: {b[3].tolist()} vs {a[3].tolist()}")
+                check(float(np.dot(a[4], b[4])) > 0.0, f"C08.path|{fmt}|arc_other_side", f"entity {k}: the loaded arc runs through the complementary side of the circle")
+
+
 @st.composite
 def mesh_spec(draw, big=False):
     kind = draw(st.sampled_from(["soup", "soup", "pool", "single"]))
@@ -436,6 +626,40 @@ def scene_case(draw):
     return {"scene": {"seed": draw(st.integers(0, 10**6)), "edges": edges, "empty_first": draw(st.booleans())}, "fmt": fmt, "kw": draw(st.sampled_from(MESH_FORMATS[fmt])), "entry": draw(st.sampled_from(["load", "load_scene"]))}
 
 
+@st.composite
+def voxel_case(draw):
+    n = draw(st.sampled_from([2, 3, 5, 8, 8, 9, 12, 16]))
+    kind = draw(st.sampled_from(["random", "random", "slab", "runs", "runs"]))
+    if kind == "random":
+        fill = ["random", draw(st.sampled_from([0.03, 0.5, 0.97]))]
+    elif kind == "slab":
+        a = draw(st.integers(0, n - 1))
+        fill = ["slab", a, draw(st.integers(1, n - a))]
+    else:
+        # run lengths around the one-byte count limit of the format and its multiples
+        fill = ["runs", draw(st.lists(st.one_of(st.integers(1, 40), st.sampled_from([254, 255, 256, 509, 510, 511, 765, 1020, 1275])), min_size=1, max_size=30)), draw(st.integers(0, 1))]
+    return {
+        "spec": {"n": n, "seed": draw(st.integers(0, 10**6)), "fill": fill, "backing": draw(st.sampled_from(["dense", "rle", "brle"])),
+                 "scale": draw(st.sampled_from([1.0, 0.37, 25.0, 1e-3])), "offset": [draw(_f(-100, 100)) for _ in range(3)]},
+        "axis_order": draw(st.sampled_from(["xzy", "xyz"])),
+        "default_kw": draw(st.booleans()),
+        "via_path": draw(st.booleans()),
+    }
+
+
+@st.composite
+def path_case(draw):
+    ents = draw(st.lists(st.one_of(
+        st.tuples(st.just("line"), st.integers(2, 7), st.booleans()),
+        st.tuples(st.just("arc"), st.sampled_from(["circle", "open"]), st.booleans()),
+    ), min_size=1, max_size=6))
+    return {
+        "spec": {"seed": draw(st.integers(0, 10**6)), "entities": [list(e) for e in ents], "scale": draw(st.sampled_from([1.0, 1e-2, 1e3])), "offset": [draw(_f(-1000, 1000)) for _ in range(2)]},
+        "fmt": draw(st.sampled_from(["dxf", "svg", "dict"])),
+        "via_path": draw(st.booleans()),
+    }
+
+
 @subcheck("C08", "mesh", shards={"quick": 10, "thorough": 16})
 def s_mesh(ctx):
     ctx.given("C08.mesh", mesh_case(), n={"quick": 2500, "thorough": 60000})
@@ -466,4 +690,11 @@ def s_big(ctx):
     ctx.given("C08.mesh", mesh_case(formats=["glb", "ply", "stl", "off"], big=True), n={"quick": 6, "thorough": 80})
 
 
-REQUIRED_CLASSES["C08"] = ["fmt:stl", "fmt:ply", "fmt:obj", "fmt:glb", "fmt:gltf", "fmt:3mf", "fmt:dae", "fmt:off", "fmt:dict64", "fmt:stl_ascii", "scene:glb", "scene:3mf", "points:xyz:colors=True", "points:xyz:colors=False"]
+@subcheck("C08", "voxel_path", shards={"quick": 4, "thorough": 8})
+def s_voxel_path(ctx):
+    ctx.given("C08.voxel", voxel_case(), n={"quick": 600, "thorough": 20000})
+    ctx.given("C08.path", path_case(), n={"quick": 600, "thorough": 20000})
+
+
+REQUIRED_CLASSES["C08"] = ["fmt:stl", "fmt:ply", "fmt:obj", "fmt:glb", "fmt:gltf", "fmt:3mf", "fmt:dae", "fmt:off", "fmt:dict64", "fmt:stl_ascii", "scene:glb", "scene:3mf", "points:xyz:colors=True", "points:xyz:colors=False",
+                           "voxel:run>=510", "voxel:run_is_multiple_of_255", "path:dxf", "path:svg", "path:dict", "path:arc", "path:circle"]
